@@ -41,7 +41,7 @@ fn abs_addr(s: &str, run: &Run) -> (i64, i64) {
     (a, p)
 }
 
-pub fn one(out: &mut Out, cond: &str, connected: bool, dialing: bool, opts: &[i64], beh: &[i64], extend: bool, peer: i64, role_override: bool) {
+pub fn one(out: &mut Out, cond: &str, connected: bool, dialing: bool, opts: &[i64], beh: &[i64], extend: bool, peer: i64, role_override: bool, aborted: bool) {
     let cfg = json!({"concurrency": 8});
     let mut run: Run = Run::new(&cfg);
     if peer >= 0 {
@@ -54,6 +54,11 @@ pub fn one(out: &mut Out, cond: &str, connected: bool, dialing: bool, opts: &[i6
             // the pending dial that makes the peer "being dialed" may be a plain dial or a hole-punch style dial with a role override
             run.exec(&json!({"c": "dial", "peer": peer, "cond": "Always", "addrs": [8], "role_override": role_override}));
             run.exec(&json!({"c": "poll"}));
+            if aborted {
+                // the pending dial was aborted (disconnect_peer_id) but the Swarm has not been polled since: its outcome has
+                // not been reported, the pending counter still counts it - the peer is still being dialed
+                run.exec(&json!({"c": "disconnect", "peer": peer}));
+            }
         }
     }
     let snap0 = run.rig.snap();
@@ -71,7 +76,7 @@ pub fn one(out: &mut Out, cond: &str, connected: bool, dialing: bool, opts: &[i6
     }).collect();
     out.ev(json!({"cond": cond, "connected": connected, "dialing": dialing, "opts": addrs, "beh": beh, "extend": extend, "peer": peer,
         "res": d["res"], "dialed": dialed, "nfail": nfail, "fail_kinds": fail_kinds,
-        "role_override": role_override, "po0": snap0["po"], "po1": snap1["po"], "is_connected": snap0["is_connected"][peer.max(0) as usize], "listen": 100}));
+        "role_override": role_override, "aborted": aborted, "po0": snap0["po"], "po1": snap1["po"], "is_connected": snap0["is_connected"][peer.max(0) as usize], "listen": 100}));
 }
 
 pub fn main(a: &vcommon::Args) {
@@ -87,9 +92,12 @@ pub fn main(a: &vcommon::Args) {
                 for o in &ol {
                     for b in &bl {
                         for extend in [false, true] {
-                            one(&mut out, cond, connected, dialing, o, b, extend, 1, false);
+                            one(&mut out, cond, connected, dialing, o, b, extend, 1, false, false);
                             if dialing && o.len() <= 1 && b.len() <= 1 {
-                                one(&mut out, cond, connected, dialing, o, b, extend, 1, true);
+                                one(&mut out, cond, connected, dialing, o, b, extend, 1, true, false);
+                                if !connected {
+                                    one(&mut out, cond, connected, dialing, o, b, extend, 1, false, true);
+                                }
                             }
                         }
                     }
@@ -100,7 +108,7 @@ pub fn main(a: &vcommon::Args) {
     // dials without a peer id: always dial, no /p2p suffix
     for o in [1i64, 2, 100] {
         for cond in conds {
-            one(&mut out, cond, false, false, &[o], &[], false, -1, false);
+            one(&mut out, cond, false, false, &[o], &[], false, -1, false, false);
         }
     }
     println!("records={}", out.events);
